@@ -12,9 +12,9 @@ from ural.patterns import DOMAIN_TEMPLATE, DOMAIN_LABELS_PREFIX
 
 INSTAGRAM_POST_SHORTCODE_RE = re.compile(r"^[a-zA-Z0-9_\-]+$")
 INSTAGRAM_USERNAME_RE = re.compile(r"^[a-zA-Z0-9_\-\.]+$")
-INSTAGRAM_DOMAIN_RE = re.compile(r"(?:^|\.)instagram\.com$", re.I)
+INSTAGRAM_DOMAIN_RE = re.compile(r"(?:^|\.)instagram\.com$", re.I | getattr(re, "A", 0))
 INSTAGRAM_URL_RE = re.compile(
-    DOMAIN_TEMPLATE % (DOMAIN_LABELS_PREFIX + r"instagram\.com"), re.I
+    DOMAIN_TEMPLATE % (DOMAIN_LABELS_PREFIX + r"instagram\.com"), re.I | getattr(re, "A", 0)
 )
 INSTAGRAM_NOT_A_USER_SET = {
     "accounts",
